@@ -122,6 +122,7 @@ pub struct RunStats {
     pub exec_on_private: u64,
     pub exec_in_scope_depth: [u64; MAX_SCOPE_DEPTH + 1],
     pub host_adds: u64,
+    pub host_mutations: u64,
     pub retained_alias_defines: u64,
     pub root_alias_defines: u64,
     pub scope_opens: u64,
@@ -672,6 +673,31 @@ impl<'a, 'w> Runner<'a, 'w> {
                         }
                     });
                 }
+                Op::MutateRetained(i) => {
+                    let new_snap = tls::with(|ts| {
+                        if ts.retained.is_empty() {
+                            return None;
+                        }
+                        let at = *i % ts.retained.len();
+                        match &mut ts.retained[at] {
+                            Value::List(l) => {
+                                let v = Arc::make_mut(l);
+                                match v.last_mut() {
+                                    Some(last) => *last = Value::Int(77),
+                                    None => v.push(Value::Int(77)),
+                                }
+                            }
+                            Value::String(st) => Arc::make_mut(st).push('~'),
+                            _ => return None,
+                        }
+                        Some((at, snap(&ts.retained[at])))
+                    });
+                    if let Some((at, sn)) = new_snap {
+                        // the host's own edit: the reference picture of that value moves with it
+                        self.retained_snaps[at] = sn;
+                        self.stats.host_mutations += 1;
+                    }
+                }
                 Op::HostAdd(i, j, take_left) => {
                     let operands = tls::with(|ts| {
                         if ts.retained.is_empty() {
@@ -806,7 +832,11 @@ impl<'a, 'w> Runner<'a, 'w> {
             // `thread_local!` memo is stable under immediate re-execution on the same thread, so only a
             // thread without a past can tell that the past mattered)
             if mix(&[key, 0xf4e5]) % 2 == 0 {
-                let retained: Vec<Value> = tls::with(|ts| ts.retained.clone());
+                // the fresh thread holds deep copies of this thread's retained values (other buffers, other
+                // addresses) — equal values, so equal results — unless a copy could iterate a map differently
+                let held: Vec<(Value, Snap)> = tls::with(|ts| ts.retained.iter().map(|v| (v.clone(), snap(v))).collect());
+                // (rebuilt outside the TLS borrow: building a map goes through the interpreter and its hooks)
+                let retained: Vec<Value> = held.into_iter().map(|(v, sn)| if sn.has_multi_key_map() { v } else { rebuild_from_snap(&sn) }).collect();
                 let buggify = w.knobs.buggify_milli;
                 let tid = self.tid;
                 let me: &Runner = &*self;
@@ -1005,6 +1035,7 @@ fn merge(into: &mut RunStats, from: &RunStats) {
         into.exec_in_scope_depth[i] += from.exec_in_scope_depth[i];
     }
     into.host_adds += from.host_adds;
+    into.host_mutations += from.host_mutations;
     into.retained_alias_defines += from.retained_alias_defines;
     into.root_alias_defines += from.root_alias_defines;
     into.scope_opens += from.scope_opens;
